@@ -15,11 +15,12 @@ var xpKindLean = map[string]string{"Sig": "Sig", "StdSig": "StdSig", "EnumSig": 
 	"SigType": "SigType", "SigUnit?": "Option SigUnit", "SigUnit": "SigUnit", "SigEnum": "SigEnum",
 	"EnumValue": "EnumValue", "ParentMsg": "ParentMsg", "Msg": "Msg", "Recv": "String",
 	"[]Recv": "List String", "[]Sig": "List Sig", "[][]Sig": "List (List Sig)", "[]EnumValue": "List EnumValue",
-	"NodeInt": "NodeInt", "Bus": "Bus", "[]NodeInt": "List NodeInt", "[]Msg": "List Msg", "[]SigEnum": "List SigEnum"}
+	"AttrAss": "AttrAssignment", "Attr": "Attr", "StrAttr": "StrAttr", "IntAttr": "IntAttr", "FloatAttr": "FloatAttr",
+	"EnumAttr": "EnumAttr", "AnyVal": "AnyVal", "NodeInt": "NodeInt", "Bus": "Bus", "[]NodeInt": "List NodeInt", "[]Msg": "List Msg", "[]SigEnum": "List SigEnum"}
 
 type xpK func() []string
 
-type xpLoop struct{ recur func() []string }
+type xpLoop struct{ recur, done func() []string }
 
 func xpInd(lines []string) []string {
 	res := make([]string, len(lines))
@@ -186,8 +187,8 @@ func (t *xptr) recvPath(e ast.Expr) (string, bool) {
 		return "", false
 	}
 	if id, ok := s.X.(*ast.Ident); ok && t.isRecv(id) {
-		if s.Sel.Name == "sigEnums" {
-			return "st.sigEnums", true
+		if xpRecvMaps[s.Sel.Name] {
+			return "st." + s.Sel.Name, true
 		}
 		return "", false
 	}
@@ -310,6 +311,11 @@ func (t *xptr) expr(e ast.Expr) string {
 		t.fail(e, "index expression %s (a slice is indexed only as the whole right-hand side of an assignment)", exprStr(e))
 	case *ast.CallExpr:
 		return t.call(x)
+	case *ast.TypeAssertExpr:
+		if n, ok := t.hoisted[x]; ok {
+			return n
+		}
+		t.fail(e, "type assertion %s (only inside the right-hand side of an assignment)", exprStr(e))
 	}
 	t.fail(e, "expression %s", exprStr(e))
 	return ""
@@ -356,6 +362,13 @@ func (t *xptr) composite(cl *ast.CompositeLit) string {
 }
 
 func (t *xptr) call(c *ast.CallExpr) string {
+	if m, ok := t.recvCall(c); ok && xpFreeFuncs[m] {
+		g := t.sigs[m]
+		if g == nil || g.mayPanic || g.writesSt {
+			t.fail(c, "call of %s inside an expression", m)
+		}
+		return "(" + t.callText(m, c) + ")"
+	}
 	if id, ok := c.Fun.(*ast.Ident); ok {
 		if _, isBuiltin := t.info.Uses[id].(*types.Builtin); isBuiltin || t.info.Types[c.Fun].IsType() {
 			switch id.Name {
@@ -684,6 +697,8 @@ func (t *xptr) facts(n ast.Node) xpFacts {
 					f.st = true
 				}
 			}
+		case *ast.TypeAssertExpr:
+			f.panics = true
 		case *ast.IndexExpr:
 			if _, ok := types.Unalias(t.info.TypeOf(y.X)).Underlying().(*types.Slice); ok {
 				f.panics = true
